@@ -548,7 +548,7 @@ def search_warm_cold(ctx: Ctx, only: list[tuple[str, dict[str, int], list[list[s
 	n_random = ctx.scale(8, 80) if only is None else 0
 	hist: dict[str, int] = {}
 	seen: set[str] = set()
-	budget_runs = ctx.scale(84, 400)
+	budget_runs = ctx.scale(72, 400)
 	runs = 0
 	for hi in range(len(histories) + n_random):
 		if runs >= budget_runs:
@@ -799,14 +799,17 @@ def search_disabled(ctx: Ctx, only: list[tuple[str, dict[str, int], list[list[st
 
 
 STATEMENTS: dict[str, str] = {
-	'tree_key': 'for every semantics with injective digests, every history (edit with fresh mtime / run / run -f / clear / delete / trunc / enable) from an empty project and cache, and every run: each tree the run obtains (cached or not) is the fresh parse of the module\'s current source',
+	'tree_key': 'for every semantics with injective digests, every history (edit with fresh mtime / grammar change with fresh mtime / run / run -f / clear / delete / trunc / enable) from an empty project and cache, and every run: each tree the run obtains (cached or not) is the fresh parse of the module\'s current source with the parser of the current setting',
 	'tree_key_warm_cold': 'hence the tree of a module in the warm run equals its tree in the run over the cleared cache directory',
 	'evict_keeps_written': 'after a cache miss the file named by the current identity exists and holds the fresh value, whatever the eviction glob matched',
-	'evict_safe': 'both coherence invariants (tree cache, symbol cache) survive the deletion of an arbitrary list of cache files: the over-matching glob is benign',
+	'evict_safe': 'both coherence invariants (tree/parser cache, symbol cache) survive the deletion of an arbitrary list of cache files: the over-matching glob is benign',
 	'truncate': 'no proper prefix of the compact JSON encoding of an object/array is bracket-balanced outside string literals (JSON printer model)',
-	'symbols': 'for every semantics, import graph and acyclic history: the symbol table of every module in the warm run = its table in the run over the cleared cache directory (closure-keyed Module.identity, a383b4a)',
-	'symbols_partial_closure': 'equal closure-keyed identities imply equal cache-free symbol tables, for all semantics, graphs, depths (functional form of the key-coverage lemma id_covers)',
-	'disabled': 'enabled = False: the access log of a run is empty and the cache directory unchanged, for every semantics and world (store gated on enabled, a3f0216)',
+	'symbols': 'for every semantics, import graph and acyclic history without a grammar change: the symbol table of every module in the warm run = its table in the run over the cleared cache directory (Module.identity over the import closure, c3eaa55); "restore is faithful" is the explicit hypothesis Hyp.dec_enc = C14.rt composed with the JSON round trip',
+	'symbols_partial_closure': 'key coverage: an identity is the digest of the (file, hash) pairs of an import-closed set of files; two source states that give a module the same identity give it the same cache-free symbol table (id_covers; collect_closure: __collect_hashes returns such a set)',
+	'output_warm_cold': 'for every semantics (every renderer), acyclic history without interrupted write and grammar change: warm and cold run have the same cycle flag and, if clear, the same rendered texts, the same failure status (error), the same loaded modules, trees, identities, symbol tables and recorded output hashes (lockstep simulation)',
+	'parser_key': 'along every history the parser a run works with is the one built from the current grammar path, start, algorithm and grammar mtime; file names of different settings differ (a pickle is reused only when all four are unchanged)',
+	'parser_truncated': 'a pickle that does not decode (proper prefix) is a load failure: no parser is set, the error is the load error',
+	'disabled': 'enabled = False: the access log of a run is empty and the cache directory unchanged, for every semantics and world',
 }
 
 
@@ -831,17 +834,19 @@ def run(ctx: Ctx) -> int:
 			searches = [search_warm_cold(ctx), search_truncation(ctx), search_disabled(ctx)]
 	return common.finish(ctx, proof, streams, searches, statements=STATEMENTS,
 		partial={
-			'sentence 1 (warm output = cold output)': 'proved on the model per module: tree (tree_key, tree_key_warm_cold) and symbol table (symbols) of the warm run = those of the cold run, for acyclic import graphs; that the rendered text (a function of the tree and of the tables of the session in load order) is equal is checked by the search only; the parser cache (pickle) is correspondence/search only',
+			'sentence 1 (warm output = cold output)': 'proved on the model: output_warm_cold (rendered text, failure status, loaded modules, trees, tables equal) for acyclic import graphs, histories without interrupted write / grammar change; tree_key, symbols also for histories with trunc ops (per module, when both runs succeed)',
 			'sentence 1 (no cache file read or written when disabled)': 'proved (disabled)',
-			'sentence 2 (damaged file: rebuild or fail)': 'truncate (JSON printer model) + Hyp.prefix_invalid inside tree_key/symbols (histories contain trunc ops); pickle truncation is search only',
-			'search_only': 'failure status equality warm/cold; output text of the real renderer',
+			'sentence 2 (damaged file: rebuild or fail)': 'truncate (JSON printer model) + Hyp.prefix_invalid / dec_prefix inside tree_key/symbols/parser_key (histories contain trunc ops); parser_truncated; that pickle.load / json.load reject every proper prefix of the real files is validated by the truncation search',
+			'search_only': 'the real renderer and analyser (parameters of the model); output equality on the real code',
 			'regression': 'corpus/C05: the histories that violated the property before a3f0216 / a383b4a are replayed first and must pass',
+			'observation (not a finding: outside the property\'s history ops)': 'the symbol-file identity does not cover the grammar, and the tree identity covers the grammar mtime but not its path/start/algorithm: `symbols`/`output_warm_cold` assume no grammar change, `tree_key` assumes a grammar change refreshes the grammar mtime',
 		},
 		assumptions=[
-			'md5 is injective on the identities of a history and hex digests contain no "-" (Hyp.tree_inj, hash_inj, identL_inj, *_nodash) — hypotheses of the theorems, instantiated by unary codes in the examples',
-			'the JSON decoder rejects text whose brackets do not balance outside string literals; the encoders write valid text (Hyp.valid_parse, valid_analyse, prefix_invalid)',
+			'md5 is injective on the identities of a history and hex digests contain no "-" (Hyp.tree_inj, parser_inj, hash_inj, identL_inj, *_nodash) — hypotheses of the theorems, instantiated by unary codes in the examples',
+			'the decoders reject every proper prefix of what the encoders wrote and accept the whole (Hyp.valid_parse, valid_blob, prefix_invalid, dec_prefix)',
+			'a stored symbol table is restored as it was: Hyp.dec_enc — property C14 (C14.rt: export then import restores every entry) composed with the JSON round trip',
 			'module keys contain no "-" and differ from "parser.cache" (KeyOK); the cache directory is disjoint from the source directories',
-			'import graphs are acyclic (Acyclic / cyc = false): with a cycle the identity of a module falls back to file hashes and its table depends on the entry point of the traversal',
+			'import graphs are acyclic (Acyclic / cyc = false): inside a cycle a module that is still loading contributes only its direct imports to an identity and the table of a module depends on the entry point of the traversal; termination on cycles (visited dict) is shown on an example and by the fuel-free run of the model, the general fuel bound of `collect` is not proved',
 			'library modules are not edited during a history',
 		],
 		trusted=['lark (parser pickle), json, pickle, glob/fnmatch, os file-system semantics', 'sys.addaudithook reports every open()/unlink below the cache directory'])
